@@ -50,6 +50,15 @@ CLAIMS.update({
     ),
 })
 
+CLAIMS.update({
+    "C18": dict(
+        technique="interprocedural dtype-taint analysis by abstract interpretation (forward worklist over statement CFGs, summaries memoised per abstract call-site arguments = call-site specialisation, containers/wrapper objects interpreted from source)",
+        text="Decides the promotion clause: for every public entry point (all of decomposition, solvers, tenalg, factorised-tensor modules, metrics, regression, random, preprocessing) no context-free float allocation (zeros/ones/eye/tensor without **context or dtype), raw RNG draw, explicit wide dtype or strong-integer promotion reaches, through promoting operators, containers, wrapper objects and calls, a value that is returned or stored on self by fit. In-place operators and element stores are modelled as casting to the target dtype; tl.context(x) carries x's taint.",
+        note="Trusted: NumPy >= 2 promotion table for primitives (NEP 50), backends other than NumPy out of scope, value semantics (aliases not tracked), parameters of unknown nature never create promotions (can miss, cannot over-report). Documented exceptions: leverage_score_dist, integer index/count outputs.",
+        design="DESIGN.md §3 C18",
+    ),
+})
+
 NA = {
     "C04": "Equality of floating-point tensors across norms, signs, QR and SVD: no structural necessary condition exists that is not a frozen copy of the formula; the one shape-level clause (transforms must not write into their argument) is decided under C15.",
     "C05": "Singular values, orthonormality and optimal truncation error are numerical facts about LAPACK results; no sound static argument bounds them.",
